@@ -141,6 +141,7 @@ def run(tier, seed):
                         ctx.violation("c14:wrong-degree-accepted:" + name, "a degree of the wrong parity is not refused (python %s, model %s)" % (out["status"], ml),
                                       {"generator": name, "args": args, "chebyshev_basis": cb})
     ctx.assumptions = ["oracle values (chebfit, Taylor approximation, optimiser, Bessel, binomial) are whatever the real run obtained; the model's theorems hold for all of them"]
+    ctx.extra["argument_types"] = dict(G.ARG_TYPES)
     return ctx.finish(
         rule="13 generators x both bases x sampled valid argument tuples (degrees 1..60 Chebyshev / 1..24 monomial, shape parameters in documented ranges) x "
              "4 (ensure_bounded, return_scale) combinations, plus wrong-parity degrees; a case is one generate() call; distinct = distinct (generator, arguments, options)")
